@@ -45,4 +45,3 @@ func Harness_C09_flate() {
 		verifAssert(before+len(p) > flateUncompressLimit, "C09/flate/refuses-only-beyond-limit")
 	}
 }
-
